@@ -33,3 +33,13 @@ def cpu_bound_provider():
     """A module-level (picklable) provider, as run_in_process=True requires."""
     return "from-the-process-pool"
 
+
+def counting_failer_fn(runs, succeed_on_retry):
+    """Records the attempt counter it was delivered with; fails on the first attempt, later ones fail or succeed."""
+
+    async def fn(m: MessageDependency):
+        runs.append(m.parameters.retries.already_tried)
+        if len(runs) == 1 or not succeed_on_retry:
+            raise ValueError("x")
+
+    return fn
